@@ -1,2 +1,171 @@
-From AV Require Import lib.Num model.C12_Base model.C12_Model.
-From Gen Require Import C12_Extracted.
+(* C12_Link — obligations stated on the Gallina text regenerated from /repo on THIS run (Gen.C12_Extracted):
+   (1) `Extracted = Model` for every kernel that has both texts (so the theorems of props/C12_Props.v speak
+       about the code as it is now), (2) the property laws re-proved directly on the extracted text.
+   Compiled in build/C12/gen.  A changed constant, formula, comparison or branch order breaks one of these. *)
+From Coq Require Import ZArith Reals Lra Lia Bool List String.
+From AV Require Import lib.Num lib.FloatMath model.C12_Base model.C12_Model proofs.C12_ISA proofs.C12_Proofs.
+From Gen Require C12_Extracted.
+Module X := C12_Extracted.
+Import ListNotations.
+Local Open Scope R_scope.
+
+(* equality of two real expressions with the same operator tree, leaves closed by linear / ring arithmetic *)
+Ltac eqr :=
+  first [ reflexivity | lra | ring
+        | match goal with
+          | |- ?f _ = ?f _ => f_equal; eqr
+          | |- ?f _ _ = ?f _ _ => f_equal; eqr
+          end ].
+
+(* ---- constants -------------------------------------------------------------------------------------- *)
+Theorem C12_link_constants :
+  @X.T0 RNum = @c_T0 RNum /\ @X.p0 RNum = @c_p0 RNum /\ @X.g0 RNum = @c_g0 RNum /\ @X.R_air RNum = @c_R RNum /\
+  @X.kappa RNum = @c_kappa RNum /\ @X.beta_tropo RNum = @c_beta RNum /\ @X.h_p_tropo RNum = @c_htrop RNum /\
+  @X.MW_S RNum = @mw_S RNum /\ @X.MW_SO2 RNum = @mw_SO2 RNum /\ @X.MW_SO4 RNum = @mw_SO4 RNum /\
+  @X.sls_default_z RNum = 19 / 5 /\ @X.sls_default_P_SL RNum = @c_p0 RNum /\ @X.sls_default_T_SL RNum = @c_T0 RNum /\
+  @X.sls_default_n_eng RNum = 2 /\ @X.hcco_ACRP_slope RNum = - 52 /\
+  @X.a0 RNum = 340294 / 1000 /\ @X.rho0 RNum = 1225 / 1000 /\ @X.R_E RNum = 6378100.
+Proof.
+  unfold X.T0, X.p0, X.g0, X.R_air, X.kappa, X.beta_tropo, X.h_p_tropo, X.MW_S, X.MW_SO2, X.MW_SO4,
+    X.sls_default_z, X.sls_default_P_SL, X.sls_default_T_SL, X.sls_default_n_eng, X.hcco_ACRP_slope,
+    X.a0, X.rho0, X.R_E,
+    c_T0, c_p0, c_g0, c_R, c_kappa, c_beta, c_htrop, mw_S, mw_SO2, mw_SO4.
+  rn. repeat split; lra. Qed.
+Print Assumptions C12_link_constants.
+
+(* ---- ISA ---------------------------------------------------------------------------------------------- *)
+Lemma x_isa_T (h : R) : @X.temperature_at_altitude_isa_bada4 RNum h =
+  Tg (@X.T0 RNum) (@X.beta_tropo RNum) (@X.h_p_tropo RNum) h.
+Proof. reflexivity. Qed.
+Lemma x_isa_p (h : R) : @X.pressure_at_altitude_isa_bada4 RNum h =
+  Pg (@X.T0 RNum) (@X.p0 RNum) (@X.g0 RNum) (@X.R_air RNum) (@X.beta_tropo RNum) (@X.h_p_tropo RNum) h.
+Proof. reflexivity. Qed.
+Lemma x_isa_h (p : R) : @X.altitude_from_pressure_isa_bada4 RNum p =
+  Hg (@X.T0 RNum) (@X.p0 RNum) (@X.g0 RNum) (@X.R_air RNum) (@X.beta_tropo RNum) (@X.h_p_tropo RNum) p.
+Proof. unfold X.altitude_from_pressure_isa_bada4, X.temperature_at_altitude_isa_bada4, Hg, isa_altitude_g, isa_ptrop_g.
+  rn. match goal with |- context [Rleb ?a ?a] => rewrite (proj2 (Rleb_true a a) (Rle_refl a)) end. reflexivity. Qed.
+
+Lemma x_signs : 0 < @X.T0 RNum /\ 0 < @X.p0 RNum /\ 0 < @X.g0 RNum /\ 0 < @X.R_air RNum /\ @X.beta_tropo RNum < 0 /\
+  0 < @X.T0 RNum + @X.beta_tropo RNum * @X.h_p_tropo RNum.
+Proof. unfold X.T0, X.p0, X.g0, X.R_air, X.beta_tropo, X.h_p_tropo. rn. repeat split; lra. Qed.
+
+Theorem C12_link_isa_inverse :
+  (forall h : R, @X.altitude_from_pressure_isa_bada4 RNum (@X.pressure_at_altitude_isa_bada4 RNum h) = h) /\
+  (forall p : R, 0 < p -> @X.pressure_at_altitude_isa_bada4 RNum (@X.altitude_from_pressure_isa_bada4 RNum p) = p).
+Proof. destruct x_signs as (A & B & C & D & E & F). split; intros.
+  - rewrite x_isa_p, x_isa_h. apply altitude_of_pressure_of_altitude; assumption.
+  - rewrite x_isa_h, x_isa_p. apply pressure_of_altitude_of_pressure; assumption. Qed.
+Print Assumptions C12_link_isa_inverse.
+
+Theorem C12_link_isa_continuous :
+  continuity_pt (@X.temperature_at_altitude_isa_bada4 RNum) (@X.h_p_tropo RNum) /\
+  continuity_pt (@X.pressure_at_altitude_isa_bada4 RNum) (@X.h_p_tropo RNum).
+Proof. destruct x_signs as (A & B & C & D & E & F). split.
+  - apply temperature_continuous_at_tropopause.
+  - apply pressure_continuous_at_tropopause; assumption. Qed.
+Print Assumptions C12_link_isa_continuous.
+
+Theorem C12_link_isa_is_model :
+  (forall h : R, @X.temperature_at_altitude_isa_bada4 RNum h = @isa_temperature RNum h) /\
+  (forall h : R, @X.pressure_at_altitude_isa_bada4 RNum h = @isa_pressure RNum h) /\
+  (forall p : R, @X.altitude_from_pressure_isa_bada4 RNum p = @isa_altitude RNum p).
+Proof. destruct C12_link_constants as (E1 & E2 & E3 & E4 & _ & E6 & E7 & _).
+  split; [ | split]; [intros; rewrite x_isa_T | intros; rewrite x_isa_p | intros; rewrite x_isa_h];
+  rewrite ?E1, ?E2, ?E3, ?E4, ?E6, ?E7; reflexivity. Qed.
+Print Assumptions C12_link_isa_is_model.
+
+(* ---- SOx ------------------------------------------------------------------------------------------------ *)
+Theorem C12_link_sox_sulfur_conserved :
+  forall fsc eps : R,
+    let '(sx, so2, so4) := @X.EI_SOx RNum fsc eps in
+    so2 * @X.MW_S RNum / @X.MW_SO2 RNum + so4 * @X.MW_S RNum / @X.MW_SO4 RNum = fsc / 1000 /\ sx = so2 + so4.
+Proof. intros. unfold X.EI_SOx, X.MW_S, X.MW_SO2, X.MW_SO4. rn. split; [field | reflexivity]. Qed.
+Print Assumptions C12_link_sox_sulfur_conserved.
+
+Theorem C12_link_sox_is_model : forall fsc eps : R, @X.EI_SOx RNum fsc eps = @sox RNum fsc eps.
+Proof. intros. unfold X.EI_SOx, X.MW_S, X.MW_SO2, X.MW_SO4, sox, mw_S, mw_SO2, mw_SO4. rn. reflexivity. Qed.
+Print Assumptions C12_link_sox_is_model.
+
+(* ---- Fuel Flow Method 2 ---------------------------------------------------------------------------------- *)
+Theorem C12_link_ffm2_is_model :
+  forall ff P Ta M z PSL TSL n : R,
+    @X.get_SLS_equivalent_fuel_flow RNum ff P Ta M z PSL TSL n = @ffm2 RNum ff P Ta M z PSL TSL n.
+Proof. intros. unfold X.get_SLS_equivalent_fuel_flow, ffm2. rn. simpl. eqr. Qed.
+Print Assumptions C12_link_ffm2_is_model.
+
+Theorem C12_link_ffm2_linear :
+  forall k f1 f2 P Ta M z PSL TSL n : R,
+    @X.get_SLS_equivalent_fuel_flow RNum (k * f1) P Ta M z PSL TSL n =
+      k * @X.get_SLS_equivalent_fuel_flow RNum f1 P Ta M z PSL TSL n /\
+    @X.get_SLS_equivalent_fuel_flow RNum (f1 + f2) P Ta M z PSL TSL n =
+      @X.get_SLS_equivalent_fuel_flow RNum f1 P Ta M z PSL TSL n + @X.get_SLS_equivalent_fuel_flow RNum f2 P Ta M z PSL TSL n.
+Proof. intros. rewrite !C12_link_ffm2_is_model. split; [apply ffm2_scales | apply ffm2_additive]. Qed.
+Print Assumptions C12_link_ffm2_linear.
+
+(* ---- thrust categories ------------------------------------------------------------------------------------ *)
+Theorem C12_link_thrust_cat_is_model :
+  forall ff a b c d : R, @X.get_thrust_cat_cruise RNum ff a b c d = @thrust_cat RNum ff (a, b, c, d).
+Proof. intros. reflexivity. Qed.
+Print Assumptions C12_link_thrust_cat_is_model.
+
+Theorem C12_link_thrust_cat_monotone :
+  forall f1 f2 a b c d : R, f1 <= f2 ->
+    (mode_rank (@X.get_thrust_cat_cruise RNum f1 a b c d) <= mode_rank (@X.get_thrust_cat_cruise RNum f2 a b c d))%Z.
+Proof. intros. rewrite !C12_link_thrust_cat_is_model. apply thrust_cat_monotone. assumption. Qed.
+Print Assumptions C12_link_thrust_cat_monotone.
+
+(* ---- NOx pieces --------------------------------------------------------------------------------------------- *)
+Theorem C12_link_nox_speciation :
+  let '(pno, pno2, phono) := @X.NOx_speciation RNum in
+  forall m, (@tget RNum pno m, @tget RNum pno2 m, @tget RNum phono m) = @speciation RNum m /\
+            @tget RNum pno m + @tget RNum pno2 m + @tget RNum phono m = 1.
+Proof. unfold X.NOx_speciation. rn. intros m. destruct m; unfold speciation, tget; rn; split; try lra;
+  (apply f_equal2; [apply f_equal2 | ]; lra). Qed.
+Print Assumptions C12_link_nox_speciation.
+
+Theorem C12_link_nox_pieces :
+  (forall f : R, @X.nox_clamp_cal RNum f = @clamp_ff RNum f) /\
+  (forall f : R, @X.nox_clamp_eval RNum f = @clamp_ff RNum f) /\
+  (forall f : R, @X.nox_log RNum f = @log10 RNum f) /\
+  (forall x s i : R, @X.nox_line RNum x s i = @pow10 RNum (x * s + i)) /\
+  (forall Ta P sl : R, @X.nox_ambient RNum Ta P sl = sl * @nox_ambient_factor RNum Ta P).
+Proof. split; [ | split; [ | split; [ | split]]]; intros.
+  - unfold X.nox_clamp_cal, clamp_ff. rn. replace (0 / 1) with 0 by lra. reflexivity.
+  - unfold X.nox_clamp_eval, clamp_ff. rn. replace (0 / 1) with 0 by lra. reflexivity.
+  - unfold X.nox_log, log10, ten. rn. reflexivity.
+  - unfold X.nox_line, pow10, ten. rn. reflexivity.
+  - unfold X.nox_ambient, nox_ambient_factor, humidity_omega, sat_beta, log10, pow10, ten, c_T0, c_p0. rn. reflexivity. Qed.
+Print Assumptions C12_link_nox_pieces.
+
+(* ---- HC / CO pieces --------------------------------------------------------------------------------------- *)
+Theorem C12_link_hcco_pieces :
+  (forall Ta P : R, @X.hcco_cruise_factor RNum Ta P = @hcco_cruise RNum Ta P) /\
+  (forall ff fI : R, @acrp_factor RNum ff fI = if Rlt_dec ff fI then 1 + @X.hcco_ACRP_slope RNum * (ff - fI) else 1).
+Proof. split; intros.
+  - unfold X.hcco_cruise_factor, hcco_cruise, c_T0, c_p0. rn. reflexivity.
+  - unfold acrp_factor, X.hcco_ACRP_slope. rn. unfold Rltb. destruct (Rlt_dec ff fI); lra. Qed.
+Print Assumptions C12_link_hcco_pieces.
+
+(* ---- volatile PM --------------------------------------------------------------------------------------------- *)
+Theorem C12_link_pmvol_is_model :
+  (forall (ff : R) m, @X.EI_PMvol_FuelFlow RNum ff m = @pmvol_fuelflow RNum m) /\
+  (forall t hc : R, @X.EI_PMvol_FOA3 RNum t hc = @pmvol_foa3 RNum t hc).
+Proof. split; intros.
+  - unfold X.EI_PMvol_FuelFlow, pmvol_fuelflow. rn. destruct (mode_eqb m Idle); reflexivity.
+  - unfold X.EI_PMvol_FOA3, pmvol_foa3, foa3_nodes. rn. reflexivity. Qed.
+Print Assumptions C12_link_pmvol_is_model.
+
+(* ---- SCOPE11 ------------------------------------------------------------------------------------------------- *)
+Theorem C12_link_scope11_is_model :
+  @X.scope11_AFR RNum = (@afr RNum Idle, @afr RNum Approach, @afr RNum Climb, @afr RNum Takeoff) /\
+  (forall (sn : R) m (bpr : R) et, @X.scope11_mode RNum sn (@afr RNum m) bpr et = @scope11_mode RNum sn m bpr et).
+Proof. split; [reflexivity | ]. intros.
+  unfold X.scope11_mode, scope11_mode, scope11_Q, scope11_kslm, scope11_cbc.
+  destruct (String.eqb et "MTF"); [ | destruct (String.eqb et "TF")]; rn; replace (0 / 1) with 0 by lra;
+  (destruct (Reqb sn (- (1 / 1)) || Reqb sn 0); [lra | ]); eqr. Qed.
+Print Assumptions C12_link_scope11_is_model.
+
+Theorem C12_link_scope11_nonneg :
+  forall (sn : R) m (bpr : R) et, 0 <= bpr -> 0 <= @X.scope11_mode RNum sn (@afr RNum m) bpr et.
+Proof. intros. destruct C12_link_scope11_is_model as [_ E]. rewrite E. apply scope11_mode_nonneg. assumption. Qed.
+Print Assumptions C12_link_scope11_nonneg.
